@@ -302,3 +302,240 @@ def install_additional_conversions(I):
     del P.writes[mark:]
     d.o.region = "class-state"
     return d
+
+
+# ------------------------------------------------------------------------------------------------
+# ratio of a scale-only pair of units (conv(u, w)(x) == ratio(u, w) * x) -- shared vocabulary of the
+# exponent-aware conversion and of the arithmetic contracts
+ratio = z3.Function("ratio", NameS, NameS, RealS)
+scale_only = z3.Function("scale_only", NameS, NameS, z3.BoolSort())
+
+
+def resolve_unit(R, st, qt, u):
+    """GetInfo(qt, u, fix_unknown=True, fix_legacy=True) folded into (resolves, key, noqt, invalid)"""
+    ok, key, noqt, inv = [], u, [], []
+    for n, g, k, x in getinfo_cases(R, st, qt, u, True, True):
+        if k == "raise":
+            (noqt if x == "InvalidQuantityTypeError" else inv).append(g)
+        else:
+            ok.append(g)
+            if n in ("unknown", "legacy"):
+                key = z3.If(g, x, key)
+    return z3.Or(*ok), key, z3.Or(*noqt) if noqt else F, z3.Or(*inv) if inv else F
+
+
+def power_facts(P, st, k1, k2, r, e_real, direct=()):
+    """Hypotheses of the power-law clause (assumption A15: math.pow is the real power function, which
+    stays uninterpreted; `scale-only pair` means conv(k1,k2)(x) == r*x and conv(k2,k1)(x) == x/r, r > 0).
+    They are ground instances over the math.pow applications p = x**y recorded on the path:
+        x > 0 ==> p > 0 ;  x == 0, y > 0 ==> p == 0
+        inner p1 = x1**y1, outer p2 = x2**y2 with y1*y2 == 1 (decided separately), x1 >= 0:
+            x2 == conv(k1,k2)(p1) ==> p2 == x1 * r**y2        and x2 > 0 <=> p1 > 0
+            x2 == conv(k2,k1)(p1) ==> p2 == x1 * (1/r)**y2    and x2 > 0 <=> p1 > 0
+            x2 == p1              ==> p2 == x1
+        (1/r)**y == r**(-y);  r**y > 0;  r**y == r <=> (r == 1 or y == 1)"""
+    apps = P.ghost.get("upow_apps", [])
+    one = z3.RealVal(1)
+    out = [r > 0]
+    ys = [e_real]
+    for x, y, p in apps:
+        out.append(z3.Implies(x > 0, p > 0))
+        out.append(z3.Implies(z3.And(x == 0, y > 0), p == 0))
+        ys.append(y)
+    for x2, y2, p2 in apps:
+        for x1, y1, p1 in apps:
+            if p1 is p2:
+                continue
+            if not P.valid(y1 * y2 == 1):
+                continue
+            c12, c21 = conv_term(st, k1, k2, p1), conv_term(st, k2, k1, p1)
+            out.append(z3.Implies(z3.And(x1 >= 0, x2 == c12), z3.And(p2 == x1 * upow(r, y2), (x2 > 0) == (p1 > 0), (x2 == 0) == (p1 == 0))))
+            out.append(z3.Implies(z3.And(x1 >= 0, x2 == c21), z3.And(p2 == x1 * upow(one / r, y2), (x2 > 0) == (p1 > 0), (x2 == 0) == (p1 == 0))))
+            out.append(z3.Implies(z3.And(x1 >= 0, x2 == p1), p2 == x1))
+    for t in direct:
+        # the scale-only pair on the values converted without a root
+        out += [conv_term(st, k1, k2, t) == r * t, conv_term(st, k2, k1, t) == t / r]
+    for y in ys:
+        out += [z3.Implies(y == 1, upow(r, y) == r), z3.Implies(y == -1, upow(r, y) == one / r)]
+        out += [upow(r, y) > 0, upow(one / r, y) > 0, upow(one / r, y) == upow(r, -y), upow(one / r, -y) == upow(r, y), (upow(r, y) == r) == z3.Or(r == 1, y == 1)]
+    return out
+
+
+@register
+class ConvertWithExpSpec(FunctionSpec):
+    """UnitDatabase._ConvertWithExp(quantity_type, [(from_unit, e)], [(to_unit, e)], value) -- the
+    re-expression of an amount given in a power of a unit (C02 route; the second reading of C06):
+    for a scale-only pair of units with ratio r (conv(from,to)(x) == r*x) the amount v [from**e] is
+    v * r**e [to**e], for every finite v (negative and zero included) and every integer e != 0.
+    e == 1 is the plain conversion; empty unit lists leave the value alone; more than one unit or
+    differing exponents are errors."""
+
+    fq = UDB + ":UnitDatabase._ConvertWithExp"
+    props = ("C02", "C06")
+    callees = (UDB + ":UnitDatabase.Convert",)
+    probe = "convert_exp"
+
+    def variants(self, tier):
+        return [(1, 1), (0, 1), (1, 0), (0, 0), (2, 1), (1, 2)]
+
+    def setup(self, I, variant):
+        symseq.install(I.P)
+        db, R = make_db(I)
+        install_additional_conversions(I)
+        P = I.P
+        k1, k2 = variant
+
+        def mk(tag, k):
+            items = []
+            for i in range(k):
+                items.append(STuple([nm("%s_unit%d" % (tag, i)), SNum(z3.Int("%s_exp%d" % (tag, i)), "int")]))
+            return SRef(P.alloc(HList(items, region="caller")))
+
+        fl, tl = mk("from", k1), mk("to", k2)
+        v = SNum(z3.Real("value"), "float")
+        qt = nm("qt")
+        return {"f": bound(I, db, "_ConvertWithExp"), "args": [qt, fl, tl, v], "R": R, "st": R.snapshot(), "quantity_type": qt, "from_unit_exps": fl, "to_unit_exps": tl, "value": v}
+
+    def bind_call(self, I, f, args, kwargs):
+        ctx = FunctionSpec.bind_call(self, I, f, args, kwargs)
+        R = I.P.ghost["reg"]
+        ctx["R"] = R
+        ctx["st"] = R.snapshot()
+        return ctx
+
+    @staticmethod
+    def pairs(x):
+        if isinstance(x, SRef) and isinstance(x.o, HList):
+            items = x.o.items
+        elif isinstance(x, STuple):
+            items = x.items
+        else:
+            raise OutOfSubset("_ConvertWithExp with %r" % (x,))
+        for it in items:
+            if not (isinstance(it, STuple) and len(it.items) == 2 and isinstance(it.items[0], SStr) and isinstance(it.items[1], SNum)):
+                raise OutOfSubset("_ConvertWithExp unit/exponent pair %r" % (it,))
+        return items
+
+    def cases(self, I, ctx):
+        R, st = ctx["R"], ctx["st"]
+        fi, ti, v, qtv = self.pairs(ctx["from_unit_exps"]), self.pairs(ctx["to_unit_exps"]), ctx["value"], ctx["quantity_type"]
+        if not (isinstance(qtv, SStr) and isinstance(v, SNum)):
+            raise OutOfSubset("_ConvertWithExp on %r / %r" % (qtv, v))
+        call = ctx.get("$call")
+        if not fi or not ti:
+            return [ret("no-units: value untouched", T, v, props=("C02",))]
+        if len(fi) != 1 or len(ti) != 1:
+            return [rai("composed-unit", T, "ComposedUnitError", props=("C05",))]
+        S = z3.Select
+        fu, fe = fi[0].items[0].name, fi[0].items[1].t
+        tu, te = ti[0].items[0].name, ti[0].items[1].t
+        c = qtv.name
+        vr = v.real()
+        e_real = z3.ToReal(fe)
+        one = z3.RealVal(1)
+        P = I.P
+
+        def num(expected):
+            return lambda I, res: res.real() == expected if isinstance(res, SNum) else F
+
+        def val(expected):
+            return (lambda I: SNum(expected, "float")) if call else None
+
+        out = [rai("different-exponents", fe != te, "ValueError", props=("C05",))]
+        out.append(Case("exponent-0", z3.And(fe == te, fe == 0), "any"))
+        ok = z3.And(fe == te, fe != 0)
+        same = fu == tu
+        isq = S(st["C_dom"], c)
+        qt = z3.If(isq, S(st["C_qt"], c), c)
+        r1, k1, nq1, iv1 = resolve_unit(R, st, qt, fu)
+        r2, k2, nq2, iv2 = resolve_unit(R, st, qt, tu)
+        # the same unit on both sides: the amount is the value, whatever the power
+        out.append(ret("same-unit", z3.And(ok, same), props=("C02",), check=num(vr), value=val(vr), facts=lambda I: power_facts(I.P, st, k1, k1, one, e_real)))
+        pre0 = z3.And(ok, z3.Not(same))
+        knownqt = z3.Or(isq, S(st["Q_dom"], c))
+        out.append(rai("no-quantity-type", z3.And(pre0, z3.Not(knownqt)), "InvalidQuantityTypeError", props=("C05",)))
+        pre = z3.And(pre0, knownqt)
+        # a unit that does not resolve is an error whichever side it is on (which side is reported
+        # first is not specified when the two sides fail differently)
+        out.append(rai("unit-of-unregistered-type", z3.And(pre, z3.Or(nq1, nq2), z3.Not(z3.Or(iv1, iv2))), "InvalidQuantityTypeError", props=("C05",)))
+        out.append(rai("invalid-unit", z3.And(pre, z3.Or(iv1, iv2), z3.Not(z3.Or(nq1, nq2))), "InvalidUnitError", props=("C05",)))
+        out.append(Case("two-different-errors", z3.And(pre, z3.Or(iv1, iv2), z3.Or(nq1, nq2)), "any"))
+        good = z3.And(pre, r1, r2)
+        out.append(ret("exponent-1: plain conversion", z3.And(good, fe == 1), props=("C02",), check=num(conv_term(st, k1, k2, vr)), value=val(conv_term(st, k1, k2, vr))))
+        r = ratio(k1, k2)
+        lin = scale_only(k1, k2)
+        gp = z3.And(good, fe != 1)
+        expected = vr * upow(r, e_real)
+        out.append(ret("power-law: v * r**e", z3.And(gp, lin), props=("C02", "C06"), check=num(expected), value=val(expected), facts=lambda I: power_facts(I.P, st, k1, k2, r, e_real, direct=(vr,))))
+        out.append(Case("not-scale-only", z3.And(gp, z3.Not(lin)), "any"))
+        return out
+
+    def extra_obligations(self, I, ctx, outcome):
+        R = ctx["R"]
+        return [("frame[registry unchanged]", ("C15", "C05", "C13"), not R.writes)]
+
+
+@register
+class ConvertExponentFormsSpec(FunctionSpec):
+    """UnitDatabase.Convert with (unit, exponent) lists / tuples on either side (the public entry of
+    the exponent route; Quantity.Convert of a derived quantity calls it with the composing categories
+    as a one-element list).  A plain string side means exponent 1; identical sides return the value
+    itself; otherwise the result is that of the _ConvertWithExp contract."""
+
+    fq = UDB + ":UnitDatabase.Convert"
+    key = UDB + ":UnitDatabase.Convert#exponent-forms"
+    props = ("C02", "C06")
+    callees = (UDB + ":UnitDatabase._ConvertWithExp",)
+    probe = "convert_exp"
+
+    def variants(self, tier):
+        out = []
+        for qf in ("str", "list1"):
+            for ff, tf in (("list1", "list1"), ("tuple1", "tuple1"), ("list1", "tuple1"), ("str", "list1"), ("list1", "str"), ("list2", "list2"), ("list0", "list1")):
+                out.append((qf, ff, tf))
+        return out
+
+    def setup(self, I, variant):
+        symseq.install(I.P)
+        db, R = make_db(I)
+        install_additional_conversions(I)
+        P = I.P
+        qf, ff, tf = variant
+
+        def mk(tag, form):
+            if form == "str":
+                u = nm(tag + "_unit0")
+                return u, [STuple([u, SNum(1)])]
+            k = int(form[-1])
+            items = [STuple([nm("%s_unit%d" % (tag, i)), SNum(z3.Int("%s_exp%d" % (tag, i)), "int")]) for i in range(k)]
+            if form.startswith("tuple"):
+                return STuple(items), items
+            return SRef(P.alloc(HList(items, region="caller"))), items
+
+        fa, fi = mk("from", ff)
+        ta, ti = mk("to", tf)
+        qt = nm("qt")
+        qa = qt if qf == "str" else SRef(P.alloc(HList([qt], region="caller")))
+        v = SNum(z3.Real("value"), "float")
+        return {"f": bound(I, db, "Convert"), "args": [qa, fa, ta, v], "R": R, "st": R.snapshot(), "qt": qt, "fi": fi, "ti": ti, "value": v, "forms": (ff, tf)}
+
+    def cases(self, I, ctx):
+        fi, ti, v = ctx["fi"], ctx["ti"], ctx["value"]
+        ff, tf = ctx["forms"]
+        inner = REGISTRY[UDB + ":UnitDatabase._ConvertWithExp"]
+        sub = {"R": ctx["R"], "st": ctx["st"], "quantity_type": ctx["qt"], "from_unit_exps": STuple(fi), "to_unit_exps": STuple(ti), "value": v}
+        cs = inner.cases(I, sub)
+        # identical sides (same container kind, same pairs): the value itself comes back
+        kind = lambda f: "tuple" if f.startswith("tuple") else "list"
+        if kind(ff) == kind(tf) and len(fi) == len(ti):
+            same = z3.And(*[z3.And(a.items[0].name == b.items[0].name, a.items[1].real() == b.items[1].real()) for a, b in zip(fi, ti)]) if fi else T
+            out = [ret("identical-sides: the value itself", same, v, props=("C02",))]
+            for c in cs:
+                c.guard = z3.And(z3.Not(same), c.guard)
+                out.append(c)
+            return out
+        return cs
+
+    def extra_obligations(self, I, ctx, outcome):
+        R = ctx["R"]
+        return [("frame[registry unchanged]", ("C15", "C05", "C13"), not R.writes)]
